@@ -51,11 +51,20 @@ def rules(t):
     r = RuleResult("C14.b", "payload is emitted only after its bytes were deducted", floor=4)
     f = t.fn("SendChannelReliable::get_packets_to_send")
     ded = list(budget_stores(t, f))
-    for c in t.calls(r"Vec.*::push$", f):
+    cuts = list(t.calls(r"Bytes::slice$", f))
+    for c in list(t.calls(r"Vec.*::push$", f)):
         a = fmt(t.arg(c, 1))
         if "Bytes::clone" in a or "ReliableSlice" in a:
             r.site(c)
+            if "ReliableSlice" in a and cuts:
+                # the slice was cut earlier (possibly collected by a helper first): the charge must follow the cut before anything else is cut
+                continue
             if not any(f.dominates(d.bb, c.bb) for d in ded): r.bad(f"{f.path}|push|{a[:25]}", c, "message/slice queued for sending before the budget was charged")
+    for c in cuts:
+        r.site(c, "slice payload cut")
+        lp = innermost_loop(f, c.bb)
+        ok = any(f.dominates(d.bb, c.bb) and (lp is None or d.bb in lp[1]) for d in ded) or must_pass(f, pos(c), {pos(d) for d in ded}, stops=[(lp[0], 0)] if lp else None)[0]
+        if not ok: r.bad(f"{f.path}|cut-uncharged", c, "a slice payload is cut for sending on a path where the budget is not charged for it in the same iteration")
     g = t.fn("SendChannelUnreliable::get_packets_to_send")
     ded = list(budget_stores(t, g))
     for c in t.calls(r"Vec.*::push$", g):
